@@ -67,7 +67,11 @@ type output struct {
 	// model (channels, WaitGroup, Cond, atomics, goroutines): accesses to their
 	// package-level variables are not judged by the race detector.
 	RaceExemptPkgs []string `json:"race_exempt_pkgs"`
-	Packages       []string `json:"packages"`
+	// Coarse: the tree starts goroutines / uses channels in library code; only
+	// the map-order seam and the package-variable registry were generated.
+	Coarse        bool     `json:"coarse"`
+	CoarseReasons []string `json:"coarse_reasons,omitempty"`
+	Packages      []string `json:"packages"`
 	// SyncPkgs: packages (relative to the module) that use synchronisation
 	// primitives or atomics: writes to their package-level state may be
 	// synchronised, so I-GLOBAL does not treat them as races.
@@ -111,6 +115,57 @@ func main() {
 	sort.Slice(pkgs, func(i, j int) bool { return pkgs[i].PkgPath < pkgs[j].PkgPath })
 	var out output
 	yieldID, mapID := 0, 0
+	// Pre-scan: does library code start goroutines or use channels / WaitGroup /
+	// Cond / errgroup? Then operations cannot be interleaved by a cooperative
+	// scheduler (their inner goroutines run for real). The tree is instrumented
+	// in COARSE mode: only the map-order seam and the package-variable registry;
+	// every operation is one atomic scheduler step.
+	for _, pkg := range pkgs {
+		if excluded(pkg.PkgPath) || pkg.Name == "main" {
+			continue
+		}
+		for _, f := range pkg.Syntax {
+			fname := pkg.Fset.File(f.Pos()).Name()
+			if strings.HasSuffix(fname, "_test.go") {
+				continue
+			}
+			rel, _ := filepath.Rel(root, fname)
+			ast.Inspect(f, func(n ast.Node) bool {
+				why := ""
+				switch x := n.(type) {
+				case *ast.GoStmt:
+					why = "go statement"
+				case *ast.SelectStmt:
+					why = "select statement"
+				case *ast.SendStmt:
+					why = "channel send"
+				case *ast.UnaryExpr:
+					if x.Op == token.ARROW {
+						why = "channel receive"
+					}
+				case *ast.SelectorExpr:
+					if id, ok := x.X.(*ast.Ident); ok {
+						if pn, ok := pkg.TypesInfo.Uses[id].(*types.PkgName); ok {
+							switch pn.Imported().Path() + "." + x.Sel.Name {
+							case "sync.WaitGroup", "sync.Cond", "sync.NewCond":
+								why = "sync." + x.Sel.Name
+							}
+							if pn.Imported().Path() == "golang.org/x/sync/errgroup" {
+								why = "errgroup"
+							}
+						}
+					}
+				}
+				if why != "" {
+					out.Coarse = true
+					out.CoarseReasons = append(out.CoarseReasons, fmt.Sprintf("%s:%d %s", rel, pkg.Fset.Position(n.Pos()).Line, why))
+				}
+				return true
+			})
+		}
+	}
+	sort.Strings(out.CoarseReasons)
+	coarse := out.Coarse
 	raceIDs := map[types.Object]int{}
 	var raceNames []string
 	for _, pkg := range pkgs {
@@ -169,6 +224,9 @@ func main() {
 				return funcStack[len(funcStack)-1]
 			}
 			addYield := func(lb token.Pos, kind string) {
+				if coarse {
+					return
+				}
 				yieldID++
 				patches = append(patches, patch{off: tf.Offset(lb) + 1, text: fmt.Sprintf("simrt.Yield(%d);", yieldID)})
 				out.Yields = append(out.Yields, site{ID: yieldID, Kind: kind, Pos: posOf(lb), Func: curFunc()})
@@ -228,14 +286,20 @@ func main() {
 						}
 					}
 				case *ast.BlockStmt:
-					writeYields(x.List, tf, &patches, &yieldID, &out, posOf, curFunc, &usesSimrt)
-					touches(x.List, tf, &patches, pkg.TypesInfo, raceIDs, &out, &usesSimrt)
+					if !coarse {
+						writeYields(x.List, tf, &patches, &yieldID, &out, posOf, curFunc, &usesSimrt)
+						touches(x.List, tf, &patches, pkg.TypesInfo, raceIDs, &out, &usesSimrt)
+					}
 				case *ast.CaseClause:
-					writeYields(x.Body, tf, &patches, &yieldID, &out, posOf, curFunc, &usesSimrt)
-					touches(x.Body, tf, &patches, pkg.TypesInfo, raceIDs, &out, &usesSimrt)
+					if !coarse {
+						writeYields(x.Body, tf, &patches, &yieldID, &out, posOf, curFunc, &usesSimrt)
+						touches(x.Body, tf, &patches, pkg.TypesInfo, raceIDs, &out, &usesSimrt)
+					}
 				case *ast.CommClause:
-					writeYields(x.Body, tf, &patches, &yieldID, &out, posOf, curFunc, &usesSimrt)
-					touches(x.Body, tf, &patches, pkg.TypesInfo, raceIDs, &out, &usesSimrt)
+					if !coarse {
+						writeYields(x.Body, tf, &patches, &yieldID, &out, posOf, curFunc, &usesSimrt)
+						touches(x.Body, tf, &patches, pkg.TypesInfo, raceIDs, &out, &usesSimrt)
+					}
 				case *ast.GoStmt:
 					out.Audit = append(out.Audit, auditItem{"go", posOf(x.Pos()), "go statement"})
 				case *ast.SelectStmt:
@@ -255,6 +319,11 @@ func main() {
 							case "sync":
 								switch sel {
 								case "Mutex", "RWMutex", "Once", "Pool":
+									if coarse {
+										// real goroutines inside operations need the real primitives
+										pkgSync = true
+										break
+									}
 									// latent seam: redirect the type to simrt
 									patches = append(patches, patch{off: tf.Offset(x.Pos()), end: tf.Offset(id.End()), text: "simrt"})
 									out.SyncSeams++
